@@ -22,6 +22,8 @@ pub fn all() -> Vec<(&'static str, Blueprint)> {
         ("v10_state", v10_state()),
         ("v11_flat_permuted", v11_flat_permuted()),
         ("v12_fallbacks", v12_fallbacks()),
+        ("v13_diamonds", v13_diamonds()),
+        ("v14_state_collision", v14_state_collision()),
         ("x01_missing", x01_missing()),
         ("x02_missing_transitive", x02_missing_transitive()),
         ("x03_cycle", x03_cycle()),
@@ -39,6 +41,9 @@ pub fn all() -> Vec<(&'static str, Blueprint)> {
         ("x15_many_at_once", x15_many_at_once()),
         ("x16_nested_override", x16_nested_override()),
         ("x17_borrowck", x17_borrowck()),
+        ("x18_two_diamonds", x18_two_diamonds()),
+        ("x19_one_diamond", x19_one_diamond()),
+        ("x20_observer_cycle", x20_observer_cycle()),
     ]
 }
 
@@ -407,5 +412,49 @@ pub fn x17_borrowck() -> Blueprint {
     bp.constructor(k::METRICS);
     bp.route(admin::ADMIN_STATS);
     bp.fallback(admin::ADMIN_FALLBACK);
+    bp
+}
+
+/// Valid ownership diamonds: one needs clones, one relies on a `Copy` corner.
+pub fn v13_diamonds() -> Blueprint {
+    let mut bp = Blueprint::new();
+    bp.import(from![pavex, crate::shapes::by_clone, crate::shapes::by_copy]);
+    bp.route(crate::shapes::by_clone::DC_HANDLER);
+    bp.route(crate::shapes::by_copy::DY_HANDLER);
+    bp.route(misc::PING);
+    bp
+}
+
+/// Two fallible singleton constructors with the same callable name.
+pub fn v14_state_collision() -> Blueprint {
+    let mut bp = base();
+    bp.import(from![crate::shapes::first, crate::shapes::second]);
+    bp.route(crate::shapes::COLLIDE_HANDLER);
+    bp.route(misc::PING);
+    bp
+}
+
+/// A clone-solvable diamond and an unsolvable one in the same handler graph.
+pub fn x18_two_diamonds() -> Blueprint {
+    let mut bp = Blueprint::new();
+    bp.import(from![pavex, crate::bad::diamonds]);
+    bp.route(bad::diamonds::TD_HANDLER);
+    bp
+}
+
+pub fn x19_one_diamond() -> Blueprint {
+    let mut bp = Blueprint::new();
+    bp.import(from![pavex, crate::bad::diamonds]);
+    bp.route(bad::diamonds::OD_HANDLER);
+    bp
+}
+
+/// A dependency cycle plus an error observer that depends on a type of the cycle.
+pub fn x20_observer_cycle() -> Blueprint {
+    let mut bp = base();
+    bp.import(from![crate::bad::observer_cycle]);
+    bp.error_observer(bad::observer_cycle::OC_OBSERVER);
+    bp.route(bad::observer_cycle::OC_HANDLER);
+    bp.route(misc::PING);
     bp
 }
